@@ -589,12 +589,12 @@ class Run:
                 slots[sub[1]] = r
                 with r:
                     yield from self.wait(r, sub[4], cancel=False)
-                    if r.triggered:
-                        yield env.timeout(hold)
+                    if r.triggered and hold >= 0:   # hold < 0: leave the block in the very turn of the
+                        yield env.timeout(hold)     # grant (request triggered, callbacks not yet processed)
                 # leaving the block releases a granted request / dequeues a waiting one
                 rid = self.ids[r]
                 if any(u is r for u in getattr(self.res, 'users', ())):
-                    self.oracle.bad('request %d still holds a slot after its with-block' % rid)
+                    self.oracle.bad('request %d still holds a slot after its with-block: the slot is never given back' % rid)
                 if any(q is r for q in self.res.put_queue) or any(q is r for q in self.res.get_queue):
                     self.oracle.bad('request %d is still queued after its with-block' % rid)
 
@@ -681,7 +681,14 @@ def gen_case(rng, kind=None, corner=False):
             slot += 1
             y = rng.random()
             if y < 0.3:
-                steps.append(['with', sub, rng.choice([0, 1, 2, 3])])
+                # hold -1: zero-duration use, the block is left in the turn of the grant
+                steps.append(['with', sub, rng.choice([-1, -1, 0, 1, 2, 3])])
+            elif y < 0.4 and kind in RES_KINDS:
+                # release / cancel right after the request, in the same turn: if it was granted at once it
+                # is triggered but its callbacks have not been processed yet
+                sub[4] = 0
+                steps.append(sub)
+                steps.append([rng.choice(['rel', 'rel', 'cancel']), slot - 1])
             else:
                 steps.append(sub)
                 if kind in RES_KINDS and w != 0 and rng.random() < 0.8:
@@ -714,6 +721,10 @@ def corner_cases():
         else:
             out.append(dict(kind=kind, cap=1, procs=[[['with', ['req', 0, 2, 1, -1], 3]], [['with', ['req', 0, 1, 0, -1], 2]],
                                                       [['sleep', 1], ['with', ['req', 0, 0, 1, -1], 1]], [['sleep', 1], ['req', 0, 0, 0, 1]]]))
+            # zero-duration uses: with-block left / release / cancel in the turn of the grant, then a later user
+            out.append(dict(kind=kind, cap=1, procs=[[['with', ['req', 0, 1, 1, 0], -1], ['with', ['req', 1, 1, 1, -1], -1]],
+                                                      [['sleep', 1], ['req', 0, 1, 1, -1], ['rel', 0], ['req', 1, 1, 1, 0], ['rel', 1], ['req', 2, 1, 1, 0], ['cancel', 2], ['rel', 2]],
+                                                      [['sleep', 2], ['with', ['req', 0, 2, 1, -1], 1]]]))
             out.append(dict(kind=kind, cap=2, procs=[[['req', 0, 1, 1, -1], ['req', 1, 1, 1, -1], ['req', 2, 0, 1, -1], ['sleep', 1], ['rel', 0], ['rel', 1], ['rel', 2], ['rel', 2]],
                                                       [['req', 0, 3, 1, 0], ['cancel', 0], ['req', 1, 2, 0, 2]]]))
     return out
